@@ -15,12 +15,12 @@ FAMILIES_OF = {
     "C01": ["plain", "full", "wide", "hints", "hard", "deep", "lazycon"],
     "C02": ["plain", "full", "wide", "hints", "hard", "deep", "lazycon"],
     "C03": ["plain", "full", "wide", "hints", "hard", "deep", "lazycon"],
-    "C04": ["plain", "full", "wide", "hints", "soft", "reuse", "deep", "lazycon"],
-    "C05": ["plain", "full", "hints", "soft", "hard", "deep", "lazycon"],
+    "C04": ["plain", "full", "wide", "hints", "soft", "softx", "reuse", "deep", "lazycon"],
+    "C05": ["plain", "full", "hints", "soft", "softx", "hard", "deep", "lazycon"],
     "C07": ["plain", "full", "wide", "hard", "deep", "lazycon"],
     "C08": ["plain", "full", "wide", "hard", "deep", "lazycon"],
     "C13": ["reuse"],
-    "C14": ["soft"],
+    "C14": ["soft", "softx"],
     "C15": ["wide", "full", "deep", "lazycon"],
     "C16": ["snapshot"],
 }
